@@ -177,7 +177,9 @@ CLAIMED = {
          "through component rewriting and long-metric trimming, gaps empty) for every request over small abstract fonts; "
          "every explored case is replayed on klippa with the abstract font built as a real font, and the reopened subset is "
          "judged by SubsetTrace.tla; random requests, re-subsetting and subsetting-to-everything on all glyf fonts of the "
-         "repository corpus are judged by the same trace specification.",
+         "repository corpus are judged by the same trace specification, as is a synthetic variable font with 139 KB of gvar data "
+         "(offset format, padding). Serializer.tla models klippa's object serializer as a state machine; every finished call "
+         "sequence TLC explores is replayed on the real serializer (sound links, sharing, errors).",
     note="Trusted: TLC, skrifa as the observer of both fonts (the same reader on both sides), read-fonts' composite parser for "
          "the component lists, hook H6 for the renumbering. Requests over 6-glyph model fonts exhaustively, corpus requests sampled.",
     technique="TLA+ plan/table-step model of the subsetter; TLC-enumerated requests replayed on klippa; trace validation of reopened subsets (model fonts + corpus)",
@@ -189,21 +191,25 @@ CLAIMED = {
          "Cursor sessions recorded from the real readers (hook H3) over the whole corpus are validated against the protocol; "
          "from each accepted session the specification derives boundary truncations and shape-scalar overwrites which are "
          "replayed: the damaged table is read and walked again (budgeted), re-read from an odd address on another thread "
-         "with the same digest, and the lookup helpers / glyph loading are driven on the damaged font. Exploration, not "
-         "proof: tables are reached through the corpus instances of each shape.",
+         "with the same digest, and the lookup helpers / glyph loading are driven on the damaged font. Hand-written decoders "
+         "have hostile-input models of their own whose cases are replayed: cmap 4 / 12 iterators (CmapIter), packed deltas "
+         "(PackedHostile), (chained) context lookup closure and range coverage (ContextClosure), the CFF INDEX (Index). "
+         "Exploration, not proof: tables are reached through the corpus instances of each shape.",
     note="Trusted: TLC; the traversal API as the generic walker (it calls every generated getter); panics are caught as "
-         "data. Not covered: table kinds absent from the corpus, CFF/CFF2 beyond glyph loading.",
+         "data. Not covered: table kinds absent from the corpus; CFF/CFF2 beyond INDEX reading, charstring evaluation (C02) and glyph loading.",
     technique="TLA+ read-protocol model (theorem + rejected mutants); trace validation of recorded cursor sessions; spec-derived boundary mutations replayed on the readers",
     design="4/C01"),
  "C02": dict(
     category="model_checking",
     text="Partial: decides the guards that bound font-controlled execution. HintVM.tla (interpreter control flow with value "
-         "stack, call stack, loop budget) and Composite.tla (component loading with nesting limit and visit budget) are "
+         "stack, call stack, loop budget), Composite.tla (component loading with nesting limit and visit budget), Charstring.tla "
+         "(the Type 2 / CFF2 charstring evaluator: operand stack, subroutine frames, nesting limit, every path / hint / blend "
+         "operator) and MemCarve.tla (scratch memory carving) are "
          "model-checked for bounded stacks, bounded work and termination over all short programs / small graphs; every "
          "explored program and graph (plus chains and diamond chains stretched to the real limits) is run by skrifa and must "
          "end in a value, an absence or a named error within a deadline, as must the public API driven over every corpus "
          "font and damaged copies with hostile sizes, coordinates, engines, scratch buffers and glyph ids.",
-    note="Trusted: TLC, the bytecode assembler of the harness. Not covered by a model: CFF charstring nesting, autohinter, "
+    note="Trusted: TLC, the bytecode assembler of the harness. Not covered by a model: autohinter, "
          "paint graphs (C13), IFT client (C18/C19). Outcome-class agreement with the models is reported, not required.",
     technique="TLA+ models of interpreter control flow and composite loading; TLC-enumerated programs/graphs replayed on skrifa; trace validation of outcomes; API drive with hostile arguments",
     design="4/C02"),
